@@ -51,6 +51,24 @@ CHECKS = {
              '(constant * / constant ! / alternatives + exclusions) judges every later message (shown? Stopped-at?) and every no-argument `list` over the whole recorded history; malformed commands must report an error and leave the state unchanged.',
         note='Trusted: reference matcher; one deliberate don\'t-care (alternatives swallowed by an earlier `*`), counted in evidence.',
         technique=TECH + '; user actor scheduled between reads'),
+    'C14': dict(level='exploration', ref='4 C14',
+        text='Two parts, stated plainly: (1) a finite enumeration, not simulation: number_to_letter_id/letter_id_to_number against an independent bijective base-26 for all 475254 indexes through four letters plus 100000 sampled up to 1e18; '
+             '(2) by simulation: sessions with heavy id churn on 1-30 connections in which every id+letters label and connection name harvested from the tool\'s own output is fed back by the user actor as `list X: <label>` / `list X:`; '
+             'the listed messages must be exactly the ground-truth messages on/mentioning/creating/destroying that incarnation (resp. of that connection); no two distinct objects display the same label.',
+        note='Trusted: label scraping from output lines (string arguments removed), ground-truth incarnation tables. Histories reach two-letter labels (>26 incarnations) but not three-letter ones (bound: <=~130 incarnations per id).',
+        technique=TECH + '; labels harvested from output and fed back by the user actor (bijection part: exhaustive enumeration)'),
+    'C16': dict(level='exploration', ref='4 C16',
+        text='The clock is the injected fault: each simulated session (filters make the shown sequence a strict subsequence; listings) is replayed, same seed, under epoch 0 and a second epoch in [1, 2^32) us and with both decimal marks; '
+             'displays must be identical up to one unit of the last digit. Absolute oracle: shown time = log time - first log time; a separator with the right value appears between consecutively shown messages (live or within one listing) iff the '
+             'ground-truth gap exceeds 1 000 000 us (gaps generated on the us lattice around the threshold), never before the first line of a listing, never elsewhere.',
+        note='Deliberate don\'t-cares (counted): a gap of exactly 1 000 000 us; a live pair split by a non-empty listing. Trusted: simulated clock, printer model.',
+        technique=TECH + '; clock-epoch shift and decimal-mark replay differential'),
+    'C17': dict(level='exploration', ref='4 C17',
+        text='Replay differential: the same simulated session (traffic, commands, transport faults drop/dup/swap/tear/garbage/id0 to reach unresolved objects, Unknown arguments, errors, warnings, empty listings) is executed twice with exactly the same schedule, '
+             'with and without colour; coloured output minus SGR sequences (independent regex) must equal the plain output on both streams, the plain run must contain no ESC, and every matcher string, label, connection name and help-text command '
+             'the coloured session printed is pasted back with its escapes while the plain text is typed in the plain session - the sessions must stay equal.',
+        note='Nothing in this property depends on a schedule; the simulator contributes exact replay and fault injection. Input chatter is ESC-free.',
+        technique=TECH + '; two-configuration replay differential'),
 }
 
 NOT_APPLICABLE = [
